@@ -23,7 +23,7 @@ def _out_len(module, C, L):
 
 
 @st.composite
-def arch_strategy(draw, L, allow_maxpool=True, allow_overlap_pool=True, n_targets=None, max_blocks=3, acts=None):
+def arch_strategy(draw, L, allow_maxpool=True, allow_overlap_pool=True, n_targets=None, max_blocks=3, acts=None, allow_norm=True):
     """Builds an architecture valid for input (B, 4, L) by construction; returns dict(layers, T)."""
     acts = acts or ACTS
     layers = []
@@ -48,6 +48,10 @@ def arch_strategy(draw, L, allow_maxpool=True, allow_overlap_pool=True, n_target
             if o is not None and o >= 1:
                 layers.append({"t": "conv", "in": C, "out": out, "k": k, "stride": stride, "dil": dil, "pad": pad})
                 cur, C = o, out
+                if allow_norm and draw(st.integers(0, 4)) == 0:
+                    layers.append({"t": "bn", "c": C})            # affine in eval mode; uses batch statistics if left in training mode
+        if allow_norm and draw(st.integers(0, 7)) == 0:
+            layers.append({"t": "dropout"})
         if draw(st.integers(0, 5)) > 0:
             layers.append({"t": "act", "name": draw(st.sampled_from(acts))})
         pool = draw(st.sampled_from(["none", "none", "avg", "max"] if allow_maxpool else ["none", "none", "avg"]))
@@ -79,7 +83,7 @@ def arch_strategy(draw, L, allow_maxpool=True, allow_overlap_pool=True, n_target
         layers.append({"t": "linear", "in": feat, "out": T})
     if draw(st.integers(0, 4)) == 0:
         layers.append({"t": "act", "name": draw(st.sampled_from(acts))})      # the model's output itself comes from an activation
-    return {"layers": layers, "T": T, "L": L}
+    return {"layers": layers, "T": T, "L": L, "nested": draw(st.integers(0, 3)) == 0}
 
 
 def build(arch, seed, scale=2.0):
@@ -106,12 +110,37 @@ def build(arch, seed, scale=2.0):
             m = torch.nn.AvgPool1d(ly["k"])
         elif t == "maxpool":
             m = torch.nn.MaxPool1d(ly["k"], stride=ly["stride"], padding=ly["pad"], ceil_mode=ly["ceil"], dilation=ly.get("dil", 1))
+        elif t == "bn":
+            m = torch.nn.BatchNorm1d(ly["c"], dtype=torch.float64)
+            with torch.no_grad():
+                m.running_mean.copy_(torch.randn(ly["c"], generator=g, dtype=torch.float64) * 0.3)
+                m.running_var.copy_(torch.rand(ly["c"], generator=g, dtype=torch.float64) + 0.5)
+                m.weight.copy_(torch.randn(ly["c"], generator=g, dtype=torch.float64) * 0.5 + 1.0)
+                m.bias.copy_(torch.randn(ly["c"], generator=g, dtype=torch.float64) * 0.3)
+        elif t == "dropout":
+            m = torch.nn.Dropout(0.3)
         elif t == "flatten":
             m = torch.nn.Flatten()
         else:
             raise ValueError(t)
         mods.append(m)
+    if arch.get("nested") and len(mods) >= 3:
+        # the same layers grouped into nested containers (blocks of blocks), as user models usually are
+        k = max(1, len(mods) // 2)
+        inner = torch.nn.Sequential(torch.nn.Sequential(*mods[:max(1, k // 2)]), *mods[max(1, k // 2):k])
+        return torch.nn.Sequential(inner, torch.nn.Sequential(*mods[k:])).double().eval()
     return torch.nn.Sequential(*mods).double().eval()
+
+
+def flat_layers(model):
+    """leaf layers of a (possibly nested) Sequential, in execution order"""
+    out = []
+    for m in model:
+        if isinstance(m, torch.nn.Sequential):
+            out.extend(flat_layers(m))
+        else:
+            out.append(m)
+    return out
 
 
 def one_hot(idx_rows, A=4):
@@ -126,7 +155,7 @@ def forward_plain(model, X, target=None):
 
 
 # ------------------------------------------------------------------ independent rescale-rule oracle (C05)
-LINEAR_TYPES = (torch.nn.Conv1d, torch.nn.Linear, torch.nn.AvgPool1d, torch.nn.Flatten)
+LINEAR_TYPES = (torch.nn.Conv1d, torch.nn.Linear, torch.nn.AvgPool1d, torch.nn.Flatten, torch.nn.BatchNorm1d, torch.nn.Dropout)
 
 
 def _act_derivative(layer, x):
@@ -140,7 +169,7 @@ def rescale_multipliers(model, x, r, target):
     """DeepLIFT rescale-rule multipliers for one (example, reference) pair, layer by layer.
     Returns (multipliers w.r.t. the input (1, A, L), number of activation inputs in the 1e-7..1e-5 switch band,
              number of exact-zero deltas, number of non-zero deltas)."""
-    layers = list(model)
+    layers = flat_layers(model)
     xs, rs = [x], [r]
     with torch.no_grad():
         for l in layers:
